@@ -814,6 +814,141 @@ func c12Worker(args []string) int {
 	return 0
 }
 
+// ---------------------------------------------------------------------------
+// (a') end states: every short SafeWriter call sequence as the body of an earlier call, then probes on the
+// recycled printer. The call alphabet of (a) fixes ~45 calls; what a call leaves behind in the printer it frees
+// (mode, open-envelope flag, escaped prefix mark, flags) depends on the LAST operations it performed, so those are
+// enumerated here: all sequences of <=k operations over the SafeWriter alphabet of C09 plus ill-formed
+// pre-redactable operands and empty payloads.
+// ---------------------------------------------------------------------------
+
+type c12sfOps struct{ ops []*Op }
+
+func (s c12sfOps) SafeFormat(p redact.SafePrinter, _ rune) {
+	for _, o := range s.ops {
+		applySW(p, o)
+	}
+}
+
+func c12EndAlphabet() []Op {
+	al := sigma(false, true)
+	for _, x := range []string{mEnd, mStart, mStart + "a", "a" + mEnd, mRed, "", mEnd + mStart} {
+		al = append(al, mkPrint(redact.RedactableString(x)), mkPrint(redact.RedactableBytes(x)))
+	}
+	al = append(al, mkPrint(), mkPrint(""), mkPrintf(""), mkPrintf("%s%s", redact.RedactableString(mEnd), ""), mkOp(kUnsafeString, ""), mkOp(kSafeString, ""), mkOp(kUnsafeBytes, ""), mkOp(kWrite, ""))
+	return al
+}
+
+var c12EndRoutes = []string{"Sprintfn(body)", "Sprint(SafeFormatter{body})", "Sprintf(%v|%v, Safe(SafeFormatter{body}), Unsafe(SafeFormatter{body}))", "SafeFormatter whose body runs on a nested printer (p.Printf(%v, SafeFormatter{body}))"}
+
+type c12nestSF struct{ inner c12sfOps }
+
+func (n c12nestSF) SafeFormat(p redact.SafePrinter, _ rune) { p.Printf("%v", n.inner) }
+
+func c12EndRun(route int, ops []*Op) (out string) {
+	defer func() {
+		if pv := recover(); pv != nil {
+			out = fmt.Sprintf("PANIC %v", pv)
+		}
+	}()
+	body := c12sfOps{ops}
+	switch route {
+	case 0:
+		return string(redact.Sprintfn(func(p redact.SafePrinter) { body.SafeFormat(p, 'v') }))
+	case 1:
+		return string(redact.Sprint(body))
+	case 2:
+		return string(redact.Sprintf("%v|%v", redact.Safe(body), redact.Unsafe(body)))
+	default:
+		return string(redact.Sprint(c12nestSF{body}))
+	}
+}
+
+var c12Probes = []c12Call{
+	{"Sprintf(hello %s, world)", func() string { return string(redact.Sprintf("hello %s", "world")) }},
+	{"Sprint(x)", func() string { return string(redact.Sprint("x")) }},
+	{"Sprintf(abc)", func() string { return string(redact.Sprintf("abc")) }},
+	{"Sprint()", func() string { return string(redact.Sprint()) }},
+	{"Sprint(Safe(s), 1, \"\\n\")", func() string { return string(redact.Sprint(redact.Safe("s"), 1, "\n")) }},
+	{"Sprint(RedactableString)", func() string { return string(redact.Sprint(redact.RedactableString("r" + mStart + "x" + mEnd))) }},
+	{"HelperForErrorf(%d %w)", func() string { return hef("%d %w", 3, c12e2) }},
+}
+
+type c12EndCase struct {
+	Ops   []int    `json:"ops"`
+	Names []string `json:"names"`
+	Route int      `json:"route"`
+	Probe int      `json:"probe"`
+}
+
+// c12EndEval: the earlier call (cold pool), then the probe on the printer it freed; "" when the probe returns
+// what it returns from a cold pool.
+func c12EndEval(al []Op, idx []int, route, probe int, refs []string) string {
+	ops := make([]*Op, len(idx))
+	for j, k := range idx {
+		ops[j] = &al[k]
+	}
+	vsync.Clear()
+	c12EndRun(route, ops)
+	got := clone(c12Probes[probe].Run())
+	if got != refs[probe] {
+		return fmt.Sprintf("after %s with body %v, the call %s returns %q; from a cold pool it returns %q", c12EndRoutes[route], opNames(ops), c12Probes[probe].Name, got, refs[probe])
+	}
+	return ""
+}
+
+func c12EndRefs() []string {
+	c12Pool.cold = true
+	defer func() { c12Pool.cold = false }()
+	var refs []string
+	for _, p := range c12Probes {
+		vsync.Clear()
+		refs = append(refs, clone(p.Run()))
+	}
+	return refs
+}
+
+func c12EndStates(c *Ctx) {
+	c12Init()
+	c12Ch.quiet = true // every Get takes the default answer: the most recently freed printer
+	defer func() { c12Ch.quiet = false }()
+	al := c12EndAlphabet()
+	precomputeRaw(al)
+	depth := 2
+	if !c.Quick() {
+		depth = 3
+	}
+	refs := c12EndRefs()
+	en := NewSeqEnum(len(al), depth)
+	sec := &Section{Name: "C12/end-states", Exhaustive: true, Extra: map[string]interface{}{"alphabet_ops": len(al), "depth": depth, "routes": c12EndRoutes, "probes": len(c12Probes)}}
+	w := &Worker{c: c, sec: sec, distinct: map[uint64]struct{}{}, extra: map[string]int64{}, stop: new(int32)}
+	r0 := c12Pool.recycled
+	for i := 0; i < en.Total; i++ {
+		idx := en.Get(i, nil)
+		for route := range c12EndRoutes {
+			for probe := range c12Probes {
+				sec.Evaluations++
+				if d := c12EndEval(al, idx, route, probe, refs); d != "" {
+					names := make([]string, len(idx))
+					for j, k := range idx {
+						names[j] = al[k].Name
+					}
+					w.Fail("end-state", c12EndCase{Ops: append([]int(nil), idx...), Names: names, Route: route, Probe: probe}, d)
+				}
+			}
+		}
+		if c.TimeUp() {
+			sec.Exhaustive = false
+			break
+		}
+	}
+	sec.Distinct = int64(en.Total)
+	sec.Extra["gets_served_by_recycled_printer"] = c12Pool.recycled - r0
+	c.sections = append(c.sections, sec)
+	fmt.Fprintf(os.Stderr, "[C12 %s] %-22s executions=%d bodies=%d recycled_gets=%d exhaustive=%v\n", c.Tier, sec.Name, sec.Evaluations, en.Total, c12Pool.recycled-r0, sec.Exhaustive)
+	vsync.Clear()
+}
+
 // scenarios: which calls run on which threads
 func c12Scenarios(tier string) [][][]int {
 	sel := []int{0, 8, 13, 14, 16, 17, 18, 19, 21, 26, 27, 28, 29, 34, 35, 36}
@@ -863,6 +998,16 @@ func init() {
 		return f
 	}
 	replayers["C12/histories+hook"] = replayers["C12/histories"]
+	replayers["C12/end-states"] = func(c *Ctx, raw json.RawMessage) string {
+		var cs c12EndCase
+		json.Unmarshal(raw, &cs)
+		c12Init()
+		c12Ch.quiet = true
+		defer func() { c12Ch.quiet = false }()
+		al := c12EndAlphabet()
+		precomputeRaw(al)
+		return c12EndEval(al, cs.Ops, cs.Route, cs.Probe, c12EndRefs())
+	}
 	replayers["C12/schedules"] = func(c *Ctx, raw json.RawMessage) string {
 		var cs c12SchedCase
 		json.Unmarshal(raw, &cs)
@@ -961,6 +1106,7 @@ func checkC12(c *Ctx) {
 	if !c.Quick() {
 		depth = 4
 	}
+	c12EndStates(c)
 	st, errs := runWorkers(c, "hist", nw, budget)
 	record("C12/histories", st, errs, map[string]interface{}{"calls": len(c12Calls), "history_depth": depth, "pool_bound": vsync.Cap, "pool_answers": "every Get: any pooled printer or a new one"})
 	st, errs = runWorkers(c, "hist+hook", nw, budget)
